@@ -278,7 +278,9 @@ func verifC05CheckStamps(x *kvm.Machine, op *vs.Op, before, after vs.Dump) {
 	f, c := x.F, x.C
 	for _, d := range vs.DiffDumps(before, after, func(t string) bool {
 		switch t {
-		case "index", "usage", "free-virtual-ips", "session_checks", "kind-service-names", "tombstones":
+		case "index", "usage", "free-virtual-ips", "session_checks", "kind-service-names", "tombstones", "mesh-topology":
+			// bookkeeping tables whose row indexes no read API exposes (mesh-topology: the reference set of a link
+			// shrinks when one of several declaring proxy instances goes; queries report the table index)
 			return false
 		}
 		return true
